@@ -19,6 +19,7 @@ Python never judges a result; it only maps abstract <-> concrete and records.
 """
 import hashlib
 import json
+import os
 import random
 import sys
 import warnings
@@ -173,11 +174,11 @@ class Concrete:
             self.a0 = self.a0.view()
             self.a0.flags.writeable = False
         elif self.wr == "frombuf":                           # immutable memory: bytes (np.frombuffer) / a mode='r' memmap
-            self._raw = self.mem.tobytes()
+            self._raw = self.mem.tobytes() + b"\0"             # (+1: CPython shares one object between equal 1-byte strings)
             dt = self.a0.dtype
             self.parent, self.a0 = self._embed(dt, shape)
             self._frame(noise=False)
-            if self.a0.flags.writeable or not np.array_equal(self.mem, np.frombuffer(self._raw, dtype=np.uint8)):
+            if self.a0.flags.writeable or not np.array_equal(self.mem, np.frombuffer(self._raw, dtype=np.uint8)[:-1]):
                 raise MachineryError("read-only rebuild of layout %s/%d failed" % (self.layout, self.var))
         elif self.wr != "w":
             raise MachineryError("unknown writeability " + self.wr)
@@ -378,7 +379,8 @@ def observe_state(tables, objs, lins, res, err="none", first=False):
     roots = [j for j in range(len(objs)) if lins[j] == j + 1]
     arrs = []
     for j, x in enumerate(objs):
-        p = cc.project_array(x)
+        # judged against the encodings of its own table's values (padding bytes of long double differ between builds)
+        p = tables[roots.index(lins[j] - 1)].project_array(x)
         grp = j
         for i in range(j):
             if isinstance(x, np.ndarray) and isinstance(objs[i], np.ndarray) and np.shares_memory(objs[i], x):
@@ -490,9 +492,14 @@ def run_chain(args):
 
 
 # ---- classification of rejected steps (signatures) ---------------------------------------
-def layout_class(rec, k=None):
+def layout_class(rec, k=None, clause=""):
     """'' for a writable array owning its C-contiguous buffer converted without the caller stepping in; else whether
-    numpy flags the window contiguous, whether the initial array is read-only, whether the caller acted before step k"""
+    numpy flags the window contiguous, whether the initial array is read-only, whether the caller acted before step k.
+    Clauses that are about a refused call / a caller step name just that."""
+    if clause == "rejected_call_changes_nothing":
+        return "@refused_call"
+    if clause.startswith("caller_mutation"):
+        return "@caller_steps"
     lay = rec.get("layout", "contig")
     c = ""
     if lay != "contig":
@@ -556,7 +563,7 @@ def judge(ctx, recs, what, pending=None):
                                               "wr": r["wr"]},
                     "ops": r["ops"][:k], "conc": r["conc"], "dtype": r["dtype"], "shape": r["shape"],
                     "layout_variant": r["variant"], "failing_step": k, "clause": clause}
-            emit.append((len(case["ops"]), rid, ("%s|%s|%s" % (entry, clause, struct_class(r)), layout_class(r, k),
+            emit.append((len(case["ops"]), rid, ("%s|%s|%s" % (entry, clause, struct_class(r)), layout_class(r, k, clause),
                                                  "%s|%s|%s" % (entry, clause, "plain" if r["plain"] else "struct")),
                          "byte-order conversion outcome not allowed by ByteOrder.tla: step %d (%s) fails clause %s on %s%s, layout %s/%d"
                          % (k, entry, clause, r["dtype"], tuple(r["shape"]), r["layout"], r["variant"]), case))
@@ -605,11 +612,11 @@ def model_runs(tier):
             # non-writable arrays (locked, read-only view of a writable array, immutable memory) in every layout: one step;
             # and the fall-back after a refused in-place call
             (c(MinFields=1, MaxFields=1, MaxDepth=1, Layouts=set(LAYOUTS), Writes=RO, Spells={"<", ">"}), 1),
-            (c(MinFields=1, MaxFields=1, MaxDepth=2, Kinds={"M", "S"}, Layouts={"contig", "strided"}, Writes=RO, Spells={">", "="},
+            (c(MinFields=1, MaxFields=1, MaxDepth=2, Kinds={"M"}, Layouts={"contig", "strided"}, Writes=RO, Spells={">", "="},
                InplaceFirst=True), 1),
             # histories in which the caller steps in between conversions (another table of the same dtype, fields renamed
             # in place, shape changed, array locked)
-            (c(MinFields=1, MaxFields=2, MaxDepth=4, WithPlain=False, Kinds={"M", "S"}, Need={"M"}, Spells={">"}, Fns={"swap"},
+            (c(MinFields=1, MaxFields=1, MaxDepth=4, WithPlain=False, Kinds={"M", "S"}, Spells={">"}, Fns={"swap"},
                CallerOps=set(CALLER)), 1),
         ]
     return [
@@ -633,11 +640,11 @@ def sim_runs(tier):
     """(constants, number of walks, history length, histories kept) of the tlc -simulate exports: long histories over the
     whole alphabet (every conversion, refusals, caller steps)"""
     def c(**kw):
-        return dict(BASE, Layouts=set(LAYOUTS), Writes=set(RO) | {"w"}, CallerOps=set(CALLER), **kw)
+        return dict(dict(BASE, Layouts=set(LAYOUTS), Writes=set(RO) | {"w"}, CallerOps=set(CALLER)), **kw)
     if tier == "quick":
-        return [(c(MinFields=1, MaxFields=3, MaxDepth=10, Spells={"<", ">"}), 150, 10, 1500),
+        return [(c(MinFields=1, MaxFields=3, MaxDepth=10, Spells={"<", ">"}), 600, 10, 2500),
                 (c(MinFields=1, MaxFields=2, MaxDepth=20, WithPlain=False, Kinds={"M", "S"}, Spells={">"}, Layouts={"contig"},
-                   Writes={"w"}), 60, 20, 500)]
+                   Writes={"w"}), 200, 20, 800)]
     return [(c(MinFields=1, MaxFields=3, MaxDepth=10), 3000, 10, 30000),
             (c(MinFields=1, MaxFields=2, MaxDepth=30, WithPlain=False, Kinds={"M", "S", "N"}, Spells={">", "="}, Layouts={"contig", "strided"},
                Writes={"w", "ro"}), 600, 30, 6000)]
@@ -713,41 +720,44 @@ def run(ctx):
     #    The layout enters the property only through the frame (RestThm) and the mechanism only through numpy's
     #    contiguity flags, so the deep runs use one layout of each contiguity class and a shallower run uses all.
     two = {"contig", "strided"}
-    full = dict(BASE, MinFields=1, MaxFields=2, MaxDepth=2 if ctx.quick else 3, Layouts=two, Writes={"w", "ro"}, DoExport=False, **MECH)
-    wide = dict(full, MinFields=3, MaxFields=3, MaxDepth=1 if ctx.quick else 2, Writes={"w"},
-                Layouts=set(LAYOUTS) if ctx.quick else {"contig", "strided", "recview", "fortran"})
+    full = dict(BASE, MinFields=1, MaxFields=2, MaxDepth=2 if ctx.quick else 3, Layouts=two, DoExport=False, **MECH)
+    wide = dict(full, MinFields=3, MaxFields=3, MaxDepth=1 if ctx.quick else 2, Layouts={"contig", "strided", "recview", "zerod"})
+    refuse = dict(full, MaxFields=1, Writes=RO, Layouts=set(LAYOUTS), MaxDepth=1 if ctx.quick else 2)
     hist = dict(full, MinFields=1, MaxFields=2, WithPlain=False, Kinds={"M", "S"}, Spells={">", "="}, Layouts={"contig"},
-                Writes={"w"}, Fns={"swap", "native"}, CallerOps=set(CALLER), MaxDepth=3 if ctx.quick else 4)
-    ctx.tlc("ByteOrderMC.tla", what="theorems + mechanism refines property (this machine's order, chains, refusals)",
-            cfg_text=cfg(constants=dict(full, MachineLE=MACHINE_LE), invariants=THEOREMS),
-            workers=16, require=ACTIONS + ["Reject"], timeout=3000)
-    ctx.tlc("ByteOrderMC.tla", what="theorems + mechanism refines property (this machine's order, 3 fields, more layouts)",
-            cfg_text=cfg(constants=dict(wide, MachineLE=MACHINE_LE), invariants=THEOREMS),
-            workers=16, require=ACTIONS, timeout=3000)
-    ctx.tlc("ByteOrderMC.tla", what="theorems (histories with caller steps: second table, rename, reshape, lock)",
-            cfg_text=cfg(constants=dict(hist, MachineLE=MACHINE_LE), invariants=THEOREMS),
-            workers=16, require=["ChooseKinds", "ChooseSpell", "ChooseLayout", "ToNative", "Swap", "Reject"] + CALLER_ACTIONS, timeout=3000)
-    ctx.tlc("ByteOrderMC.tla", what="theorems + mechanism refines property (other machine order)",
-            cfg_text=cfg(constants=dict(full, MachineLE=not MACHINE_LE, MaxDepth=2, Writes={"ro"} if ctx.quick else set(RO) | {"w"},
-                                        Layouts={"strided"} if ctx.quick else set(LAYOUTS)),
-                         invariants=THEOREMS),
-            workers=16, require=ACTIONS + ["Reject"], timeout=3000)
+                Fns={"swap", "native"}, CallerOps=set(CALLER), MaxDepth=3 if ctx.quick else 4)
+    other = dict(full, MachineLE=not MACHINE_LE, MaxDepth=2, Layouts={"strided"} if ctx.quick else set(LAYOUTS))
+    dev = os.environ.get("VH_C16_DEV")       # development only: "new" = skip the model runs and the round-1/2 exports
+    for what, consts, req in () if dev else (
+            ("this machine's order, chains", full, ACTIONS),
+            ("this machine's order, 3 fields, more layouts", wide, ACTIONS),
+            ("this machine's order, non-writable arrays in every layout, refusals", refuse, ACTIONS + ["Reject"]),
+            ("histories with caller steps: second table, rename, reshape, lock",
+             hist, ["ChooseKinds", "ChooseSpell", "ChooseLayout", "ToNative", "Swap", "Reject"] + CALLER_ACTIONS),
+            ("other machine order", other, ACTIONS),
+            ) + (() if ctx.quick else (
+            ("other machine order, non-writable arrays, refusals", dict(other, MaxFields=1, Writes=RO, Layouts={"contig", "strided"}),
+             ACTIONS + ["Reject"]),)):
+        ctx.tlc("ByteOrderMC.tla", what="theorems + mechanism refines property (%s)" % what,
+                cfg_text=cfg(constants=dict(dict(MachineLE=MACHINE_LE), **consts), invariants=THEOREMS),
+                workers=16, require=req, timeout=3000)
     # 1b. non-vacuity: each deviating mechanism / model variant violates the theorem that is about it
-    small = dict(full, MachineLE=MACHINE_LE, MaxFields=2, MaxDepth=1)
+    small = dict(full, MachineLE=MACHINE_LE, MaxFields=2, MaxDepth=1, Writes={"w", "ro"})
     leak = dict(hist, MachineLE=MACHINE_LE, MaxFields=1, Spells={">"}, Fns={"swap"}, CallerOps={"fresh"}, MaxDepth=3)
-    for what, base, dev, thm in (
+    for what, base, devi, thm in () if dev else (
             ("unrepaired order detection (fields without byte order decisive)", small, dict(FixedDetect=False), "MechRefines"),
             ("order detection blind to nested records", small, dict(NestedDetect=False), "MechRefines"),
             ("dtype assigned only to contiguous arrays, a re-typed view returned otherwise", small, dict(RetypeAlways=False), "MechRefines"),
             ("dtype assigned before the swap that a read-only array refuses", small, dict(SwapFirst=False), "MechRefines"),
             ("swapped dtype object memoised per source dtype", leak, dict(CacheDtype=True), "LineageThm")):
         rb = ctx.tlc("ByteOrderMC.tla", what="self-test: %s violates %s" % (what, thm),
-                     cfg_text=cfg(constants=dict(base, **dev), invariants=[thm]),
+                     cfg_text=cfg(constants=dict(base, **devi), invariants=[thm]),
                      workers=4, allow_violation=True, coverage=False)
         if thm not in rb.violated:
             raise MachineryError("self-test failed: %s not violated by the deviating variant (%s)" % (thm, what))
     # 2. export every behaviour (spec -> code)
     runs = model_runs(ctx.tier)
+    if dev:
+        runs = runs[-3:]
 
     def export(consts):
         r = ctx.tlc("ByteOrderMC.tla", what="export chains: " + describe(consts),
@@ -775,7 +785,7 @@ def run(ctx):
             rng = random.Random(ctx.seed * 104729 + 7 + k)
             cases = [cases[i] for i in sorted(rng.sample(range(len(cases)), keep))]
         return cases
-    with ThreadPoolExecutor(4) as ex:
+    with ThreadPoolExecutor(max(2, min(8, int(os.environ.get("VH_MAX_WORKERS", "16"))))) as ex:
         fsim = [ex.submit(simulate, a) for a in enumerate(sims)]
         exported = list(ex.map(export, [c for c, _ in runs]))
         simulated = [f.result() for f in fsim]
@@ -788,12 +798,17 @@ def run(ctx):
     for (consts, repl), cases in zip(runs, exported):
         nexported += len(cases)
         cases.sort(key=lambda c: json.dumps(c, sort_keys=True))      # TLC's print order is not part of the case
+        dup = set()
         for ci, c in enumerate(cases):
+            key = json.dumps([c["init"], c["ops"]], sort_keys=True)
+            if key in dup:          # the same calls with the two outcomes the spec allows (refused / carried out)
+                continue
+            dup.add(key)
             seen_layouts.add(c["init"]["layout"])
             concs = sweep_concs(c["init"], repl, ci) if isinstance(repl, str) else [len(jobs) * 7 + 13 * j for j in range(repl)]
             for conc in concs:
                 jobs.append((len(jobs) + 1, c["init"], c["ops"], conc))
-    if seen_layouts != set(LAYOUTS):
+    if seen_layouts != set(LAYOUTS) and not dev:
         raise MachineryError("layouts exported %s, expected all of %s" % (sorted(seen_layouts), LAYOUTS))
     # vacuity guards of the new dimensions: refusals and every caller step must occur among the histories to replay
     seen_fns = {op["fn"] for j in jobs for op in j[2]}
@@ -808,7 +823,7 @@ def run(ctx):
     for r in recs[:: max(1, len(recs) // 4)][:4]:
         ctx.sample({"dtype": r["dtype"], "shape": r["shape"], "layout": r["layout"], "writeability": r["wr"], "ops": r["ops"],
                     "observed_after_each_step": [{"res": s["res"], "rest": s["rest"], "current": s["arrs"][s["res"] - 1]} for s in r["st"]]})
-    chunk = 50000
+    chunk = 60000
     rejected = set()
     pending = []
     for i in range(0, len(recs), chunk):
@@ -822,7 +837,7 @@ def run(ctx):
         judge(ctx, rrecs[i:i + chunk], "judge seeded longer chains %d.. (ByteOrderTrace)" % (i + 1), pending)
     flush(ctx, pending)
     # 4. binding self-test: corrupted observations must be rejected, each by the clause it breaks
-    selftest(ctx, [r for r in recs if r["id"] not in rejected])
+    selftest(ctx, [r for r in recs if r["id"] not in rejected], strict=not pending)
     ctx.rule = ("every chain of conversions exported from ByteOrderMC.tla (%s), each executed on a real array whose field types, "
                 "sub-array shapes, array shape (0-d..2-d) and layout variant rotate through the catalogue (%d multi-byte, %d single-byte, "
                 "%d string types, nested records; layouts %s with %d concrete variants); one-step chains on one-field arrays are run for "
@@ -849,7 +864,9 @@ def run(ctx):
     ]
 
 
-def selftest(ctx, recs):
+def selftest(ctx, recs, strict=True):
+    """strict: every probe must find a record to corrupt (relaxed for the history probes when violations are pending:
+    a defect may have had all such records rejected)"""
     import copy
     ok = lambda r: all(s["err"] == "none" for s in r["st"])   # noqa
     base = next((r for r in recs if not r["plain"] and "M" in r["kinds"] and len(r["ops"]) >= 1
@@ -859,11 +876,27 @@ def selftest(ctx, recs):
     if base is None or vbase is None:
         raise MachineryError("binding self-test: no accepted record to corrupt")
     m = base["kinds"].index("M")
+    # a refused in-place call, and a caller mutation while an array of another lineage is alive
+    rbase = next((r for r in recs if len(r["ops"]) >= 1 and r["st"][1]["err"] != "none"), None)
+    hbase, hk, hj = None, 0, 0
+    for r in recs:
+        for k, op in enumerate(r["ops"]):
+            if op["fn"] in ("mut_names", "mut_shape", "mut_lock") and r["st"][k]["err"] == "none":
+                arrs = r["st"][k]["arrs"]
+                lin = arrs[r["st"][k]["res"] - 1]["lin"]
+                other = [j for j, a in enumerate(arrs) if a["lin"] != lin]
+                if other:
+                    hbase, hk, hj = r, k + 1, other[0]
+                    break
+        if hbase is not None:
+            break
+    if strict and (rbase is None or hbase is None):
+        raise MachineryError("binding self-test: no refused call / caller mutation among the accepted records")
 
-    def variant(b, i, f):
+    def variant(b, i, f, n=1):
         v = copy.deepcopy({k: b[k] for k in TRACE_KEYS})
-        v["ops"] = v["ops"][:1]
-        v["st"] = v["st"][:2]
+        v["ops"] = v["ops"][:n]
+        v["st"] = v["st"][:n + 1]
         v["id"] = i
         f(v)
         return v
@@ -889,13 +922,18 @@ def selftest(ctx, recs):
         (vbase, "inplace_returns_argument", as_view),
         (vbase, "init_mismatch", lambda v: v["st"][0]["lay"].__setitem__("cc", True)),
     ]
-    vs = [variant(b, 100 + i, f) for i, (b, _, f) in enumerate(probes)] + [variant(base, 98, lambda v: None),
-                                                                            variant(vbase, 99, lambda v: None)]
+    probes = [(b, c, f, 1) for b, c, f in probes]
+    if rbase is not None:       # the refused call left the new dtype on the argument
+        probes.append((rbase, "rejected_call_changes_nothing", lambda v: cur(v)["decl"].__setitem__(0, "?"), 1))
+    if hbase is not None:       # the rename / reshape / lock shows on an array derived from another table
+        probes.append((hbase, "caller_mutation_reaches_unrelated_array", lambda v: v["st"][hk]["arrs"][hj].__setitem__("sig", "x"), hk))
+    vs = [variant(b, 100 + i, f, n) for i, (b, _, f, n) in enumerate(probes)] + [variant(base, 98, lambda v: None),
+                                                                                  variant(vbase, 99, lambda v: None)]
     saved = ctx.traces
     rej = tracecheck.validate(ctx, "ByteOrderTrace.tla", vs, what="self-test: corrupted observations rejected",
                               constants={"MachineLE": MACHINE_LE}, workers=1)
     ctx.traces = saved
-    for i, (_, clause, _) in enumerate(probes):
+    for i, (_, clause, _, _) in enumerate(probes):
         got = [x.split(":", 1)[1] for x in rej.get(100 + i, [])]
         if clause not in got:
             raise MachineryError("binding self-test failed: corruption of %s not rejected (got %s)" % (clause, rej.get(100 + i)))
